@@ -54,6 +54,7 @@ func WorkerMain(args []string) int {
 	c.SkipTo = *skipTo
 	c.Only = *only
 	c.ResultPath = *result
+	c.OnlyWithHistory = p.History
 	if *logp != "" {
 		if err := c.OpenLog(*logp); err != nil {
 			fmt.Fprintln(os.Stderr, err)
